@@ -359,16 +359,22 @@ theorem calcReorg_inv (s : State) (gid : Nat) (w : StoreWF (skel s) gid) :
     ∀ (fuel : Nat) (a d : Header) (att det A D : List Header),
       s.header a.id = some a → s.header d.id = some d →
       Up a.id a.height att → Up d.id d.height det.reverse → Stored s att → Stored s det →
+      (∀ y ∈ det, a.height < y.height) → (∀ x ∈ att, d.height < x.height) →
+      (∀ x ∈ att, ∀ y ∈ det, x.id ≠ y.id) →
       s.calcReorg fuel a d att det = some (A, D) →
       ∃ c, s.header c.id = some c ∧
         Up c.id c.height A ∧ tipId c.id A = tipId a.id att ∧
         Up c.id c.height D.reverse ∧ tipId c.id D.reverse = tipId d.id det.reverse ∧
-        Stored s A ∧ Stored s D := by
+        Stored s A ∧ Stored s D ∧ (∀ x ∈ A, ∀ y ∈ D, x.id ≠ y.id) := by
   intro fuel
   induction fuel with
-  | zero => intro a d att det A D _ _ _ _ _ _ h; simp [State.calcReorg] at h
+  | zero => intro a d att det A D _ _ _ _ _ _ _ _ _ h; simp [State.calcReorg] at h
   | succ n ih =>
-    intro a d att det A D ha hd hua hud hsa hsd h
+    intro a d att det A D ha hd hua hud hsa hsd hj1 hj2 hdj h
+    have hdiff : ∀ {x y : Header}, s.header x.id = some x → s.header y.id = some y → x.height < y.height → x.id ≠ y.id := by
+      intro x y hx hy hlt e
+      have := stored_eq hx hy e
+      subst this; omega
     rw [State.calcReorg] at h
     by_cases e : a.id = d.id
     · have : (a.id == d.id) = true := by simpa using e
@@ -377,7 +383,7 @@ theorem calcReorg_inv (s : State) (gid : Nat) (w : StoreWF (skel s) gid) :
       subst h1; subst h2
       have := stored_eq ha hd e
       subst this
-      exact ⟨a, ha, hua, rfl, hud, rfl, hsa, hsd⟩
+      exact ⟨a, ha, hua, rfl, hud, rfl, hsa, hsd, hdj⟩
     · have hne : (a.id == d.id) = false := by simpa using e
       rw [if_neg (by simp [hne])] at h
       rcases Nat.lt_trichotomy a.height d.height with hlt | heq | hgt
@@ -397,8 +403,21 @@ theorem calcReorg_inv (s : State) (gid : Nat) (w : StoreWF (skel s) gid) :
             rcases List.mem_append.mp hx with hx | hx
             · exact hsd x hx
             · simp only [List.mem_singleton] at hx; subst hx; exact hd
-          obtain ⟨c, hc, r1, r2, r3, r4, r5, r6⟩ := ih a d' att (det ++ [d]) A D ha hst hua hud' hsa hsd' h
-          refine ⟨c, hc, r1, r2, r3, ?_, r5, r6⟩
+          have hj1' : ∀ y ∈ det ++ [d], a.height < y.height := by
+            intro y hy
+            rcases List.mem_append.mp hy with hy | hy
+            · exact hj1 y hy
+            · simp only [List.mem_singleton] at hy; subst hy; omega
+          have hj2' : ∀ x ∈ att, d'.height < x.height := by
+            intro x hx; have := hj2 x hx; omega
+          have hdj' : ∀ x ∈ att, ∀ y ∈ det ++ [d], x.id ≠ y.id := by
+            intro x hx y hy
+            rcases List.mem_append.mp hy with hy | hy
+            · exact hdj x hx y hy
+            · simp only [List.mem_singleton] at hy; subst hy
+              exact (hdiff hd (hsa x hx) (hj2 x hx)).symm
+          obtain ⟨c, hc, r1, r2, r3, r4, r5, r6, r7⟩ := ih a d' att (det ++ [d]) A D ha hst hua hud' hsa hsd' hj1' hj2' hdj' h
+          refine ⟨c, hc, r1, r2, r3, ?_, r5, r6, r7⟩
           rw [r4, List.reverse_append]; exact tipId_cons _ _ _
       · -- same height: both cursors go back
         have h1 : a.height ≥ d.height := by omega
@@ -429,8 +448,29 @@ theorem calcReorg_inv (s : State) (gid : Nat) (w : StoreWF (skel s) gid) :
               rcases List.mem_append.mp hx with hx | hx
               · exact hsd x hx
               · simp only [List.mem_singleton] at hx; subst hx; exact hd
-            obtain ⟨c, hc, r1, r2, r3, r4, r5, r6⟩ := ih a' d' (a :: att) (det ++ [d]) A D hsta hst hua' hud' hsa' hsd' h
-            refine ⟨c, hc, r1, ?_, r3, ?_, r5, r6⟩
+            have hj1' : ∀ y ∈ det ++ [d], a'.height < y.height := by
+              intro y hy
+              rcases List.mem_append.mp hy with hy | hy
+              · have := hj1 y hy; omega
+              · simp only [List.mem_singleton] at hy; subst hy; omega
+            have hj2' : ∀ x ∈ a :: att, d'.height < x.height := by
+              intro x hx
+              rcases List.mem_cons.mp hx with hx | hx
+              · subst hx; omega
+              · have := hj2 x hx; omega
+            have hdj' : ∀ x ∈ a :: att, ∀ y ∈ det ++ [d], x.id ≠ y.id := by
+              intro x hx y hy
+              rcases List.mem_cons.mp hx with hx | hx
+              · subst hx
+                rcases List.mem_append.mp hy with hy | hy
+                · exact hdiff ha (hsd y hy) (hj1 y hy)
+                · simp only [List.mem_singleton] at hy; subst hy; exact e
+              · rcases List.mem_append.mp hy with hy | hy
+                · exact hdj x hx y hy
+                · simp only [List.mem_singleton] at hy; subst hy
+                  exact (hdiff hd (hsa x hx) (hj2 x hx)).symm
+            obtain ⟨c, hc, r1, r2, r3, r4, r5, r6, r7⟩ := ih a' d' (a :: att) (det ++ [d]) A D hsta hst hua' hud' hsa' hsd' hj1' hj2' hdj' h
+            refine ⟨c, hc, r1, ?_, r3, ?_, r5, r6, r7⟩
             · rw [r2]; exact tipId_cons _ _ _
             · rw [r4, List.reverse_append]; exact tipId_cons _ _ _
       · -- only the attach cursor goes back
@@ -448,8 +488,20 @@ theorem calcReorg_inv (s : State) (gid : Nat) (w : StoreWF (skel s) gid) :
             rcases List.mem_cons.mp hx with hx | hx
             · subst hx; exact ha
             · exact hsa x hx
-          obtain ⟨c, hc, r1, r2, r3, r4, r5, r6⟩ := ih a' d (a :: att) det A D hsta hd hua' hud hsa' hsd h
-          refine ⟨c, hc, r1, ?_, r3, r4, r5, r6⟩
+          have hj1' : ∀ y ∈ det, a'.height < y.height := by
+            intro y hy; have := hj1 y hy; omega
+          have hj2' : ∀ x ∈ a :: att, d.height < x.height := by
+            intro x hx
+            rcases List.mem_cons.mp hx with hx | hx
+            · subst hx; omega
+            · exact hj2 x hx
+          have hdj' : ∀ x ∈ a :: att, ∀ y ∈ det, x.id ≠ y.id := by
+            intro x hx y hy
+            rcases List.mem_cons.mp hx with hx | hx
+            · subst hx; exact hdiff ha (hsd y hy) (hj1 y hy)
+            · exact hdj x hx y hy
+          obtain ⟨c, hc, r1, r2, r3, r4, r5, r6, r7⟩ := ih a' d (a :: att) det A D hsta hd hua' hud hsa' hsd hj1' hj2' hdj' h
+          refine ⟨c, hc, r1, ?_, r3, r4, r5, r6, r7⟩
           rw [r2]; exact tipId_cons _ _ _
 
 /-! ### chains and ancestors -/
@@ -545,14 +597,15 @@ theorem tryReorganize_wf {U : Univ} {s : State} (h : WF U s) (x : Nat) : WF U (s
         have w : StoreWF (skel s) U.gid := h.store
         have hnbid := header_id hnb
         have hobid := header_id hob
-        obtain ⟨c, hc, r1, r2, r3, r4, r5, _⟩ := calcReorg_inv s U.gid w _ nb ob [] [] att det
+        obtain ⟨c, hc, r1, r2, r3, r4, r5, hsd, _⟩ := calcReorg_inv s U.gid w _ nb ob [] [] att det
           (by rw [hnbid]; exact hnb) (by rw [hobid]; exact hob) trivial trivial (by intro x hx; simp at hx)
+          (by intro x hx; simp at hx) (by intro x hx; simp at hx) (by intro x hx; simp at hx)
           (by intro x hx; simp at hx) hcalc
         simp only [tipId_nil, List.reverse_nil] at r2 r4
         have hcs := skel_of_header hc
         obtain ⟨a1, a2⟩ := up_anc att c.id c.parent c.height hcs r1 r5
         have hdst : Stored s det.reverse := by
-          intro y hy; rename_i hsd; exact hsd y (List.mem_reverse.mp hy)
+          intro y hy; exact hsd y (List.mem_reverse.mp hy)
         obtain ⟨d1, _⟩ := up_anc det.reverse c.id c.parent c.height hcs r3 hdst
         rw [r2, hnbid] at a1 a2
         rw [r4, hobid] at d1
